@@ -345,7 +345,7 @@ def assumption_scan(pid, cfg):
             if e not in out["kani_stubs"]:
                 out["kani_stubs"].append(e)
     v = cfg.get("verus")
-    files = {"c08": ["c08_prelude.rs"], "lemmas": ["lemma_loops.rs"], "lemmas_compose": ["lemma_compose.rs"], "lemmas_history": ["lemma_history.rs"]}.get(v, [])
+    files = {"c08": ["c08_prelude.rs"], "lemmas": ["lemma_loops.rs"], "lemmas_compose": ["lemma_compose.rs"], "lemmas_history": ["lemma_history.rs"], "lemmas_induct": ["lemma_induct.rs"]}.get(v, [])
     for f in files:
         txt = open(os.path.join(VERIF, "verus", f)).read()
         out["verus_assume_specification"] += ["%s (%s)" % (x.strip(), f) for x in re.findall(r"assume_specification(?:<[^>]*>)?\[([^\]]*)\]", txt)]
